@@ -78,7 +78,7 @@ def _same(x, y):
 
 def _compare(label, p, q, info, explicit_name):
     check('C20.same_class', type(q) is type(p), dict(info, got=type(q).__name__))
-    for n in ('i', 'f', 's', 't', 'l', 'd', 'd2') + (('a', 'b') if isinstance(p, V2) else ()):
+    for n in ('i', 'f', 'o', 's', 't', 'l', 'd', 'd2') + (('a', 'b') if isinstance(p, V2) else ()):
         check(label, _same(getattr(p, n), getattr(q, n)), dict(info, name=n, orig=repr(getattr(p, n)), rebuilt=repr(getattr(q, n))))
     check(label, (p.sub is None) == (q.sub is None), dict(info, name='sub'))
     if p.sub is not None:
